@@ -103,6 +103,9 @@ type g struct {
 	feat   map[string]bool
 	mods   map[string]string
 	depth  int // statement nesting
+	// hideFns: no calls to generated functions (body of a redefined function: anything it called could
+	// reach the redefined name again, which would not terminate when recursion is allowed)
+	hideFns bool
 }
 
 func (x *g) f(name string) { x.feat[name] = true }
@@ -153,6 +156,9 @@ func (x *g) visible(k kind) []*varInfo {
 
 func (x *g) functions() []*varInfo {
 	var out []*varInfo
+	if x.hideFns {
+		return nil
+	}
 	seen := map[string]bool{}
 	for s := x.sc; s != nil; s = s.parent {
 		for i := len(s.vars) - 1; i >= 0; i-- {
@@ -192,6 +198,13 @@ func Generate(t *rapid.T, cfg Config) Program {
 			TopLevelControl: rapid.Bool().Draw(t, "optTop"),
 			Recursion:       rapid.Bool().Draw(t, "optRec"),
 		}
+		// The "global reassign" dialect (top-level names may be rebound, top-level uses resolve at the point
+		// of use) and globally binding loads: a quarter of the programs each.
+		x.opts.GlobalReassign = rapid.Bool().Draw(t, "optReassign") && rapid.Bool().Draw(t, "optReassign2")
+		x.opts.LoadBindsGlob = rapid.Bool().Draw(t, "optLoadGlob") && rapid.Bool().Draw(t, "optLoadGlob2")
+	}
+	if x.opts.GlobalReassign {
+		x.f("opt-globalreassign")
 	}
 	if cfg.MaxStmts == 0 {
 		cfg.MaxStmts = 40
@@ -302,6 +315,9 @@ func (x *g) topStmt() {
 	}
 	if x.cfg.ErrRate > 0 {
 		choices = append(choices, "ubd")
+	}
+	if x.opts.GlobalReassign {
+		choices = append(choices, "aug", "assign", "shadow")
 	}
 	x.stmtOf(choices[x.intn(len(choices), "top")])
 }
@@ -498,7 +514,11 @@ func (x *g) stmtOf(what string) {
 		}
 		x.f("risky-use-before-assignment")
 		n := x.fresh("u")
-		switch x.intn(3, "ubdform") {
+		form := x.intn(3, "ubdform")
+		if form == 0 && x.sc.file && x.opts.GlobalReassign {
+			form = 1 // a plain top-level use before the first binding is a static error in this dialect
+		}
+		switch form {
 		case 0:
 			x.line("t(%s, %s)", x.tag(), n)
 		case 1: // through a nested function: the name is a free variable (or a global) of it
@@ -572,7 +592,13 @@ func (x *g) shadow() {
 		}
 	}
 	x.f("shadow-universal")
-	if x.risky("use-before-shadow") {
+	if x.sc.file && x.opts.GlobalReassign {
+		// point-of-use resolution: before the first binding the name still denotes the universal
+		if x.chance(0.6, "use-then-shadow") {
+			x.f("reassign-use-then-shadow")
+			x.line("t(%s, %s)", x.tag(), name)
+		}
+	} else if x.risky("use-before-shadow") {
 		x.f("risky-use-before-assignment")
 		x.line("t(%s, %s)", x.tag(), name)
 	}
@@ -669,7 +695,7 @@ func (x *g) pickKind() kind {
 // target picks a name to assign: a fresh one, or (inside functions only) an
 // existing local of the same kind (rebinding).
 func (x *g) target(k kind) string {
-	if !x.sc.file && x.chance(0.3, "rebind") {
+	if (!x.sc.file || x.opts.GlobalReassign) && x.chance(0.3, "rebind") {
 		var own []*varInfo
 		for _, v := range x.sc.vars {
 			if v.fn == nil && v.k == k && !strings.HasPrefix(v.name, "w") && !strings.HasPrefix(v.name, "n") {
@@ -677,7 +703,11 @@ func (x *g) target(k kind) string {
 			}
 		}
 		if len(own) > 0 {
-			x.f("rebind-local")
+			if x.sc.file {
+				x.f("rebind-global")
+			} else {
+				x.f("rebind-local")
+			}
 			return own[x.intn(len(own), "own")].name
 		}
 	}
@@ -687,7 +717,7 @@ func (x *g) target(k kind) string {
 // ownVars returns variables of kind k that may be assigned to from the current block
 // (locals of this function; at top level nothing may be rebound).
 func (x *g) ownVars(k kind) []*varInfo {
-	if x.sc.file {
+	if x.sc.file && !x.opts.GlobalReassign {
 		return nil
 	}
 	var own []*varInfo
@@ -838,6 +868,16 @@ func (x *g) def() {
 	x.f("def")
 	x.nfn++
 	name := fmt.Sprintf("fn%d", x.nfn)
+	if x.sc.file && x.opts.GlobalReassign && x.chance(0.2, "redef") {
+		if fs := x.functions(); len(fs) > 0 {
+			if f := fs[x.intn(len(fs), "redefwhich")]; strings.HasPrefix(f.name, "fn") {
+				name = f.name // def of an already bound global: later calls see the new function
+				x.f("redefine-function")
+				x.hideFns = true
+				defer func() { x.hideFns = false }()
+			}
+		}
+	}
 	sig := &fnSig{name: name, ret: []kind{KInt, KInt, KList, KStr, KDict}[x.intn(5, "ret")]}
 	var params []string
 	inner := &scope{parent: x.sc, fn: sig}
